@@ -391,22 +391,33 @@ def check_population_helpers(prog: Program, size_only: bool = False) -> list:
             if isinstance(args[0], ast.Name) and args[0].id == a and isinstance(args[1], ast.Name) and args[1].id == b:
                 inc_src, ch_src = it.args
                 ok = True
+        elif isinstance(it, ast.Call) and isinstance(it.func, ast.Name) and it.func.id == "range" and isinstance(gen.target, ast.Name) \
+                and not gen.ifs and len(args) == 2 and all(isinstance(a_, ast.Subscript) and isinstance(a_.slice, ast.Name)
+                                                           and a_.slice.id == gen.target.id for a_ in args) \
+                and (len(it.args) == 1 or (len(it.args) == 2 and isinstance(it.args[0], ast.Constant) and it.args[0].value == 0)):
+            # X[i], Y[i] for i in range(0, len(X)): the same pairing by index
+            bound = it.args[-1]
+            if isinstance(bound, ast.Call) and isinstance(bound.func, ast.Name) and bound.func.id == "len" and len(bound.args) == 1 \
+                    and dotted(bound.args[0]) is not None and dotted(bound.args[0]) == dotted(args[0].value):
+                inc_src, ch_src = args[0].value, args[1].value
+                ok = True
         if not ok:
             out.append(("R4-greedy-population-pairing", n, f"`{norm(n, 90)}` does not pair incumbent k with challenger k"))
             continue
         # incumbents: the live population, sorted ascending at that point; challengers: the new population sorted ascending
-        def reaches_sorted(src, what):
+        def reaches_sorted(src, what, before=None):
             if dotted(src) == "self._population" and what == "self._population":
-                # the field must have been assigned sort_by_cost(self._population) earlier in the function
-                for m in own_nodes(g):
-                    if isinstance(m, ast.Assign) and len(m.targets) == 1 and dotted(m.targets[0]) == "self._population" \
-                            and m.lineno < n.lineno and sorted_of(m.value, "self._population"):
-                        return True
-                return False
+                # the field must have been assigned sort_by_cost(self._population) earlier in the function (before the field
+                # was read into a local alias, when it is read through one)
+                limit = before if before is not None else n.lineno
+                return any(isinstance(m, ast.Assign) and len(m.targets) == 1 and dotted(m.targets[0]) == "self._population"
+                           and m.lineno < limit and sorted_of(m.value, "self._population") for m in own_nodes(g))
             if isinstance(src, ast.Name):
                 rd = reaching_def(g.node, src, src.id)
                 if rd is not None and rd[2] == "assign":
-                    return sorted_of(rd[1], what) or (isinstance(rd[1], ast.Name) and reaches_sorted(rd[1], what))
+                    return sorted_of(rd[1], what) or (isinstance(rd[1], ast.Name) and reaches_sorted(rd[1], what)) \
+                        or (what == "self._population" and dotted(rd[1]) == "self._population"
+                            and reaches_sorted(rd[1], what, before=rd[0].lineno))
             return sorted_of(src, what)
         if not size_only:
             if not reaches_sorted(inc_src, "self._population"):
